@@ -273,7 +273,9 @@ class Corpus:
     def __init__(self, tag, progs, need_native=True, hooks=True):
         self.tag, self.progs = tag, progs
         self.dir = os.path.join(CACHE, "corpus-" + tag)
-        self.target = os.path.join(CACHE, "corpus-target")
+        # cargo target dirs keyed by the content of /repo: artefacts of one state of the repository are never
+        # reused for another (cargo's freshness test is mtime based)
+        self.target = os.path.join(CACHE, "corpus-target-" + repo_macro_fingerprint())
         self.stats = {}
         self.dropped = {}
         self.hooks = hooks
@@ -326,10 +328,21 @@ class Corpus:
                 bad.append(name)
         return bad
 
+    def _prune_targets(self):
+        try:
+            olds = sorted([x for x in os.listdir(CACHE) if x.startswith("corpus-target-") and not x.startswith(os.path.basename(self.target))],
+                          key=lambda x: os.path.getmtime(os.path.join(CACHE, x)))
+            for x in olds[:-4]:
+                shutil.rmtree(os.path.join(CACHE, x), ignore_errors=True)
+        except OSError:
+            pass
+
     def _build_once(self):
+        self._prune_targets()
         os.makedirs(os.path.join(self.dir, "src"), exist_ok=True)
         lib = crate_text(self.progs)
-        key = hashlib.sha256((lib + repo_macro_fingerprint() + VALS_RS + MAIN_RS).encode()).hexdigest()[:16]
+        rs2json_src = open(os.path.join(VERIF, "tools", "rs2json", "src", "main.rs")).read()
+        key = hashlib.sha256((lib + repo_macro_fingerprint() + VALS_RS + MAIN_RS + rs2json_src).encode()).hexdigest()[:16]
         stamp = os.path.join(self.dir, "stamp.json")
         self.bin = os.path.join(self.dir, "corpus-run")
         self.json = os.path.join(self.dir, "expanded.json")
@@ -359,6 +372,10 @@ class Corpus:
                               "-Zunpretty=expanded"], self.dir, env=rf)
         if rc != 0:
             raise CorpusBuildError("corpus expansion failed", err)
+        missing = [p.name for p in self.progs if ("pub mod %s {" % p.name) not in out]
+        if missing:
+            # cargo considered the crate fresh and printed nothing (or a truncated expansion): never use it
+            raise RuntimeError("expansion output does not contain the modules %s (stale cargo artefacts?)" % missing[:5])
         exp = os.path.join(self.dir, "expanded.rs")
         with open(exp, "w") as f:
             f.write(out)
